@@ -57,10 +57,12 @@ class CacheSeam(dict):
             self.stats['miss'] += 1
             ex.sched.in_miss[tid] = True
             ex.sched.note_conflict(tid, 'm', key)
+            ex.sched.cur_obj = ('cache', repr(key))
             ex.sched.yield_point(tid, 'Cm')
         else:
             self.stats['hit'] += 1
             ex.sched.note_conflict(tid, 'h', key)
+            ex.sched.cur_obj = ('cache', repr(key))
             ex.sched.yield_point(tid, 'Ch')
         return val
 
@@ -99,11 +101,13 @@ class CacheSeam(dict):
 
     def __setitem__(self, key, value):
         ex, tid = self._ex, self._tid()
+        ex.sched.cur_obj = ('cache', repr(key))
         ex.sched.yield_point(tid, 'Cs')
         self.stats['set'] += 1
         dict.__setitem__(self, key, value)
         ex.sched.in_miss[tid] = False
         ex.sched.note_conflict(tid, 's', key)
+        ex.sched.cur_obj = ('cache', repr(key))
         ex.sched.yield_point(tid, 'Cs')
 
     def setdefault(self, key, default=None):
@@ -486,8 +490,15 @@ class Executor(object):
         return out
 
 
+def heap_canary():
+    """Addresses of a few fresh objects: a fingerprint of the allocator state of this process."""
+    objs = [object() for _ in range(4)] + [[] for _ in range(2)] + [np.zeros(3), np.zeros(40)]
+    return [id(o) & 0xffffff for o in objs]
+
+
 def execute_plan(plan, sched_spec=None, light=False, quiet=True):
     """Entry point used inside the fork."""
+    canary0 = heap_canary()
     if quiet:
         try:
             import os
@@ -499,4 +510,6 @@ def execute_plan(plan, sched_spec=None, light=False, quiet=True):
     from . import locks
     locks.install()          # locks the library creates lazily during calls are cooperative too
     ex = Executor(plan, sched_spec, light=light)
-    return ex.run()
+    out = ex.run()
+    out['heap_canary'] = [canary0, heap_canary()]
+    return out
